@@ -189,7 +189,19 @@ func serialize(p packet) []byte {
 		ip := &layers.IPv6{Version: 6, TrafficClass: uint8(p.TOS), HopLimit: 64, NextHeader: layers.IPProtocolUDP,
 			SrcIP: net.ParseIP("2001:db8:1::1"), DstIP: v6(p.Dst)}
 		_ = udp.SetNetworkLayerForChecksum(ip)
-		err = gopacket.SerializeLayers(buf, opts, ip, udp, pay)
+		switch p.Frag {
+		case 3: // fragment extension header (first fragment, more to come) in front of the UDP header
+			ip.NextHeader = layers.IPProtocolIPv6Fragment
+			fh := gopacket.Payload([]byte{byte(layers.IPProtocolUDP), 0, 0, 1, 0, 0, 0, 42})
+			err = gopacket.SerializeLayers(buf, opts, ip, fh, udp, pay)
+		case 4: // hop-by-hop options (PadN) and destination options (PadN) in front of the UDP header
+			ip.NextHeader = layers.IPProtocolIPv6HopByHop
+			hbh := gopacket.Payload([]byte{byte(layers.IPProtocolIPv6Destination), 0, 1, 4, 0, 0, 0, 0})
+			dst := gopacket.Payload([]byte{byte(layers.IPProtocolUDP), 0, 1, 4, 0, 0, 0, 0})
+			err = gopacket.SerializeLayers(buf, opts, ip, hbh, dst, udp, pay)
+		default:
+			err = gopacket.SerializeLayers(buf, opts, ip, udp, pay)
+		}
 	}
 	if err != nil {
 		vt.Fatal("serialize: %v", err)
